@@ -1,9 +1,11 @@
 // goextract: the translator (tie T) from /repo's Go sources to Lean.
 //
 // Syntactic only (go/parser + go/ast); no type checker, no dependencies.
-//   T1  constants and tables            -> Gen/Consts.lean
-//   T2  value-only functions / slices   -> Gen/Funcs.lean
-//   T3  synchronisation skeletons       -> Gen/Skels.lean
+//
+//	T1  constants and tables            -> Gen/Consts.lean
+//	T2  value-only functions / slices   -> Gen/Funcs.lean
+//	T3  synchronisation skeletons       -> Gen/Skels.lean
+//
 // Anything outside the whitelisted subset makes goextract fail loudly (exit 2):
 // a broken tie, never a silent gap.
 package main
@@ -34,13 +36,28 @@ func fail(format string, args ...interface{}) {
 	os.Exit(2)
 }
 
+var parsed = map[string]*ast.File{}
+
 func parseFile(rel string) *ast.File {
-	f, err := parser.ParseFile(fset, filepath.Join(repo, rel), nil, parser.ParseComments)
+	if f, ok := parsed[rel]; ok {
+		return f
+	}
+	text, err := os.ReadFile(filepath.Join(repo, rel))
+	if err != nil {
+		fail("read %s: %v", rel, err)
+	}
+	if !noInlining {
+		text = inlineHelpers(rel, text)
+	}
+	f, err := parser.ParseFile(fset, filepath.Join(repo, rel), text, parser.ParseComments)
 	if err != nil {
 		fail("parse %s: %v", rel, err)
 	}
+	parsed[rel] = f
 	return f
 }
+
+var noInlining bool
 
 func findFunc(f *ast.File, recv, name string) *ast.FuncDecl {
 	for _, d := range f.Decls {
@@ -105,7 +122,21 @@ func sortedKeys(m map[string]bool) []string {
 func main() {
 	out := flag.String("out", "", "output directory (…/InvProxy/Gen)")
 	flag.StringVar(&repo, "repo", "/repo", "repository root")
+	flag.BoolVar(&noInlining, "no-inline", false, "do not inline unexported helpers before extraction")
+	flag.StringVar(&leanPropsDir, "props", "", "directory of the Lean property files (their `.call \"f\"` facts name functions that must not be inlined)")
+	dumpInlined := flag.String("dump-inlined", "", "write the inlined text of this file (repo-relative) to stdout and exit")
 	flag.Parse()
+	if leanPropsDir == "" && *out != "" {
+		leanPropsDir = filepath.Join(filepath.Dir(filepath.Clean(*out)), "Props")
+	}
+	if *dumpInlined != "" {
+		text, err := os.ReadFile(filepath.Join(repo, *dumpInlined))
+		if err != nil {
+			fail("%v", err)
+		}
+		os.Stdout.Write(inlineHelpers(*dumpInlined, text))
+		return
+	}
 	if *out == "" {
 		fail("need -out")
 	}
